@@ -32,12 +32,22 @@ values, an absent address is []):
   {"ev":"connect","host":H,"s":ID,"nic":N|0,"addr":[..],"port":P}  BEFORE the connect call
   {"ev":"sendto","host":H,"s":ID,"nic":N|0,"addr":[..],"port":P}   BEFORE a write with explicit destination
   {"ev":"local","host":H,"s":ID,"addr":[..]|[],"port":P}           local address/port the API reports afterwards
+                                  (only fills in what is still unknown: ephemeral port, address chosen by connect)
   {"ev":"rx","host":H,"nic":N,"proto":ETHERTYPE|0,"raw":[bytes],"smac":[6]|[]}   frame delivered TO the host
   {"ev":"emit","host":H,"nic":N,"proto":ETHERTYPE|0,"raw":[bytes],"rmac":[6]|[]} frame EMITTED by the stack
                                   (rmac: link destination the stack asked for, "ip" NICs only)
   {"ev":"note",...}               ignored
 Events must appear in causal order (an `rx` before the answers it triggers, an
-`emit` when the frame leaves the stack).  Extra fields are ignored.
+`emit` when the frame leaves the stack).  Extra fields are ignored (harness/wired adds a
+label `i` to emit events, used for coverage statistics only).  A file that does not start
+with a `reset` event is taken as one segment with state=false, so the smallest useful
+capture of another driver is just its `emit` events (plus a `nic` event for every NIC that
+is an Ethernet or a checksum-offload link).
+
+    import checks.c06 as c06
+    res = c06.validate_capture(ctx, '/verif/.work/<run>/frames.ndjson', what='C01 capture')
+    # -> dict(frames, segments, accepted_segments, tlc_wall_s, rejected=[dict(segment, event, clauses, frame(hex), ...)])
+    # every rejected frame has already been reported through ctx.violation (report=False to do it yourself)
 """
 import copy
 import json
@@ -51,7 +61,7 @@ MANIFEST = dict(
     technique='RFC-derived frame decoder written in TLA+ (Wire.tla) checked against hand-assembled example packets (TLC, ASSUME level); P-spec TraceWire validates byte-exact captures of every frame real stacks emit (trace validation: TLC decodes, checksums and judges each frame against the abstract host state rebuilt from logged API/config events)',
     text='harness/wired drives real stacks: single hosts (UDP writes of lengths 0..MTU and beyond from bound/connected/unbound sockets, v4/v6, several NICs/routes incl. gateway routes and two addresses per NIC; echo replies; ARP request/reply; NDP solicit/advert; ping sockets; RST replies to strays; active opens answered by a raw peer with every MSS/WS/TS/SACK-permitted combination; listeners receiving SYNs with every combination; out-of-order data provoking 1-4 SACK blocks), PAIRS of real stacks joined by tapped wires (MTU 68..1500, IPv4/IPv6, data both ways, held-back frames forcing SACK, SYN options stripped in flight to get connections without timestamps/SACK, FIN both ways, gateway routes, real ARP/NDP resolution) and fd-based Ethernet endpoints over socketpair(2). Every emitted frame is recorded byte for byte; TLC decodes it with the TLA+ decoder and requires WellFormed (lengths, IPv4 header checksum, ICMP/UDP/TCP checksums with pseudo-header, strict TCP option walk), IpIdFresh, SrcByRoute, PortsRight and DstMac.',
     design='5 C06',
-    note='Frames of checksum-offload links are exempt from transport-checksum clauses (as the code intends). SrcByRoute accepts any address of the NIC chosen by the first matching route entry (or the mirrored addresses of a packet being answered); the property does not say which of several addresses. NDP solicitations to a solicited-node multicast address may use the broadcast MAC (what the stack does) or the RFC 2464 multicast MAC. Forwarded packets are not driven. Frames are judged one by one: a frame that should have been emitted but was not is outside C06.')
+    note='Deviations from DESIGN C06: no separate Stack.tla (the abstract host state - nics, addrs, routes, neigh, socks - is rebuilt inside TraceWire from the logged events); WellFormed takes the EtherType (0 = Ethernet frame) instead of a link kind; ARP/NDP get their own instances of the addressing clauses (sender fields = NIC MAC / an address of the NIC, replies mirror the request, solicitation goes to the solicited-node address); frames of other checks arrive through validate_capture() instead of being aggregated here. Frames of checksum-offload links are exempt from transport-checksum clauses (as the code intends). SrcByRoute accepts any address of the NIC chosen by the first matching route entry (or the mirrored addresses of a packet being answered); the property does not say which of several addresses. NDP solicitations to a solicited-node multicast address may use the broadcast MAC (what the stack does) or the RFC 2464 multicast MAC. Forwarded packets are not driven. Frames are judged one by one: a frame that should have been emitted but was not is outside C06.')
 
 SPEC = ['wire']
 
@@ -732,7 +742,7 @@ def run(ctx):
     from concurrent.futures import ThreadPoolExecutor
     drv = ctx.go_build('wired')
     # ---- captures
-    budget = ctx.pick(2000, 52000)
+    budget = ctx.pick(2000, 55000)
     scs = gen_scenarios(ctx, budget)
     t0 = time.time()
     with ThreadPoolExecutor(max_workers=1) as bg:
@@ -867,7 +877,7 @@ def selftest_explain(ctx, tests):
     got = {}
     for k, ei, clauses in failed_lines(r, loc):
         got.setdefault(k, set()).update(clauses)
-    bad = [t[0] for k, t in enumerate(tests) if not any(c.startswith(t[2]) or c == 'ports.local' and t[0] == 'sock-port' for c in got.get(k, ()))]
+    bad = [t[0] for k, t in enumerate(tests) if not any(c.startswith(t[2]) for c in got.get(k, ()))]
     if bad or not r.ok:
         raise vlib.Inconclusive('binding self-test failed: corruption not noticed in %s (failed clauses per case: %s)' % (bad, {tests[k][0]: sorted(v) for k, v in got.items()}))
     return 'corrupted captures rejected with the clause aimed at: ' + ', '.join('%s->%s' % (t[0], t[2]) for t in tests)
